@@ -7,6 +7,7 @@ dataflow facts about CompilationScope::resolve_overload (syntax tree):
   R05.4  bucket choice is a function of (is_generic, is_unknown) only; is_unknown depends on the argument types only
   R05.5  candidate collection (get_item) appends own overloads before the parent's and nothing indexes candidates by position
   R05.6  three tiers: dynamic (factory) candidates must rank below generic static candidates
+  R05.7  the own generic-parameter list of a declaration (which decides its tier) does not depend on inherited generic names
 """
 import re
 from .lib import astq
@@ -430,3 +431,38 @@ def run(ctx):
         if not ok:
             r6.fail('resolve_overload/dynamic-shares-generic-tier', '%s:%d' % (F, a['line']), 'dynamic (factory) candidates are pushed as is_generic=true into the generic tier: a matching generic overload and a matching dynamic overload are an ambiguity instead of preferring the generic one')
     r6.need(1)
+
+    # ---------------- R05.7
+    own_generics(ctx)
+
+
+def own_generics(ctx):
+    """R05.7: which tier an overload belongs to is read off its own generic-parameter list (XFuncSpec::is_generic).  That list must
+    be a function of the declaration alone: computed on the MIR (data + control dependences, mutation through &mut, closures by
+    summary), the value stored in XFuncSpec.generic_params by parse_function_header is not influenced by the set of generic names
+    inherited from the enclosing functions.  Otherwise renaming a generic parameter changes the tier of a nested overload."""
+    from .lib import cdeps, mirq
+    from .lib.facts import op_place
+    mir = ctx.mir
+    r7 = ctx.rule('R05.7', 'the own generic-parameter list of a declared function does not depend on the inherited generic names')
+    bs = [b for b in mir.bodies if b.nid.endswith('::parse_function_header')]
+    if len(bs) != 1:
+        r7.fail('anchor/parse_function_header', 'src/parser.rs', 'parse_function_header not found')
+    else:
+        b = bs[0]
+        inherited = [l for l in range(1, b.d['argc'] + 1) if 'HashSet<std::string::String>' in (b.local_ty(l) or '')]
+        specs = [(i, j, s) for i, j, s in b.stmts() if s['k'] == 'assign' and s['rv']['k'] == 'agg' and (s['rv'].get('adt') or '').endswith('xtype::XFuncSpec') and 'generic_params' in (s['rv'].get('fields') or [])]
+        if len(inherited) != 1 or not specs:
+            r7.fail('anchor/parse_function_header/shape', mirq.site(b, 0), 'expected one inherited-names parameter and the construction of the XFuncSpec')
+        for i, j, s in specs:
+            op = s['rv']['ops'][s['rv']['fields'].index('generic_params')]
+            pl = op_place(op)
+            if pl is None:
+                r7.inst({'generic_params': 'constant'}, kind=(i, j))
+                continue
+            N, U = cdeps.deep_influence(mir, b, [(pl['l'], None, i)])
+            ok = not any((l, None) in N for l in inherited)
+            r7.inst({'fn': b.nid, 'site': mirq.site(b, i, j), 'locals_influencing_generic_params': len(N), 'inherited_names_among_them': not ok}, ok=ok, kind=(i, j))
+            if not ok:
+                r7.fail('parse_function_header/own-generics-depend-on-inherited', mirq.site(b, i, j), 'the list of a function\'s own generic parameters is computed from the generic names inherited from the enclosing functions as well: a nested generic function whose parameter names coincide with the enclosing ones gets a different list, hence a different rank in overload resolution, than its alpha-renamed twin')
+    r7.need(1)
